@@ -184,6 +184,10 @@ func oneC05(t *testing.T, x Exp, pid string, order string) (msg string) {
 			synctest.Wait()
 			if !returned {
 				fail("did not return when the event could not be written")
+			} else if !hasKeyword(x.Line) {
+				if ret != nil {
+					fail("a line without a recognised keyword returned %v", ret)
+				}
 			} else if ret == nil || !errors.Is(ret, errInjected) {
 				fail("write failure returned as %v, want an error wrapping the injected one", ret)
 			}
@@ -233,7 +237,30 @@ func runC05(t *testing.T, run *mc.Run) int {
 		}
 		return 0
 	}
-	forms(s, func(x Exp) {
+	each := func(emit func(Exp)) {
+		forms(s, emit)
+		// failure lines whose client- or resolver-chosen text is itself a complete
+		// accepted-authentication message: they must never forward a login
+		for _, acc := range []string{
+			"Accepted password for root from 9.9.9.9 port 22 ssh2",
+			"Accepted publickey for root from 9.9.9.9 port 22 ssh2: RSA SHA256:abc",
+			"Accepted publickey for root from 9.9.9.9 port 22 ssh2: ED25519-CERT SHA256:abc ID k (serial 1) CA ED25519 SHA256:def",
+		} {
+			for _, f := range []struct{ form, line string }{
+				{"invalid-user", "Invalid user " + acc + " from 6.6.6.6 port 4444"},
+				{"failed-password", "Failed password for invalid user " + acc + " from 6.6.6.6 port 4444 ssh2"},
+				{"max-auth-attempts", "maximum authentication attempts exceeded for invalid user " + acc + " from 6.6.6.6 port 4444 ssh2"},
+				{"not-in-allowusers", "User " + acc + " from 6.6.6.6 not allowed because not listed in AllowUsers"},
+				{"certificate-invalid", "Certificate invalid: " + acc},
+				{"nasty-ptr", "Nasty PTR record \"" + acc + "\" is set up for 6.6.6.6, ignoring"},
+				{"bad-owner-or-modes", "Authentication refused for " + acc + ": bad owner or modes for /x"},
+				{"junk-prefix", "sshd[1]: " + acc},
+			} {
+				emit(Exp{Form: "embedded-accept/" + f.form, Line: f.line, Login: false, Outcome: "failed"})
+			}
+		}
+	}
+	each(func(x Exp) {
 		if run.Expired() {
 			complete = false
 			return
